@@ -18,7 +18,8 @@ CONSTANTS MaxNonDefault     \* how many arguments may differ from the default at
 
 Apis      == {"make", "make_qr", "make_micro", "make_sequence"}
 CountCs   == {"none", "two", "sixteen", "zero", "seventeen"}       \* symbol_count of make_sequence
-VersionCs == {"none", "int", "str_int", "micro_upper", "micro_lower", "zero", "neg", "big", "str_bad", "str_junk", "str_big"}
+VersionCs == {"none", "int", "str_int", "micro_upper", "micro_lower", "zero", "neg", "big", "str_bad", "str_junk", "str_big",
+              "str_zero", "str_neg", "str_neg3"}       \* '0', '-1', '-3' (the private constants of M4, M3, M1 as text)
 ErrorCs   == {"none", "M", "m", "H", "h", "bad", "empty"}
 ModeCs    == {"none", "canon", "upper", "mixed", "bad"}
 MaskCs    == {"none", "int", "str_int", "four", "eight", "neg", "str_bad"}
